@@ -219,6 +219,7 @@ def run(ctx):
     if ctx.quick():
         sub_cases = sub_cases[:1200] + sub_cases[-150:]
     sub_reqs, sub_impl = [], []
+    alsub_reqs, alsub_impl = [], []
     for kind, s, t in sub_cases:
         inp = dict(s=s, t=t)
         exp = ref_substring(s, t)
@@ -235,6 +236,8 @@ def run(ctx):
         try:
             al = sa.levenshtein_alignment_substring(list(s), list(t))
             al = [(py(a), py(b)) for a, b in al]
+            alsub_reqs.append(dict(p='C13', op='alignsub', s=ids_of(s, t)[0], t=ids_of(s, t)[1], c=[1, 1, 1]))
+            alsub_impl.append((inp, al, s, t))
             ps = [a for a, b in al if a is not None]
             pt = [b for a, b in al if b is not None]
             swapped = len(t) > len(s)
@@ -332,6 +335,19 @@ def run(ctx):
                     ctx.disagree('C13.stats model != implementation', reqs[k - 1], out['stats'], m)
                 else:
                     ctx.traces_validated += 1
+        rep = common.Driver(ctx).batch(alsub_reqs)
+        for r, (inp, al, s_, t_) in zip(rep, alsub_impl):
+            m = r.get('ok', r.get('err'))
+            si, ti = ids_of(s_, t_)
+            table = {}
+            for x, i in zip(list(s_) + list(t_), si + ti):
+                table[i] = x
+            if isinstance(m, list):
+                m = [(None if a is None else table[a], None if b is None else table[b]) for a, b in m]
+            if m != [tuple(p) for p in al]:
+                ctx.disagree('C13.alignsub model != implementation', inp, al, m)
+            else:
+                ctx.traces_validated += 1
         rep = common.Driver(ctx).batch(sub_reqs)
         for r, got, q in zip(rep, sub_impl, sub_reqs):
             m = r.get('ok', r.get('err'))
